@@ -257,7 +257,9 @@ func checkC15(c *checkCtx) {
 						// a retry had been scheduled and not yet started when Cancel ran: the execution had work ahead
 						var lastSched, lastRetry int = -1, -1
 						for _, e := range v.Listeners {
-							if e.Seq < v.Cancel1.Seq && e.Seq > n.Enter.Seq {
+							// only retries scheduled by this policy call itself: one scheduled by a retry policy
+							// further inside may already have been cut off by a Timeout between the two
+							if e.Seq < v.Cancel1.Seq && e.Seq > n.Enter.Seq && e.Pos == v.Stack[core] && !inChildCall(n, e.Seq) {
 								if e.L == LRetryScheduled {
 									lastSched = e.Seq
 								}
@@ -366,4 +368,14 @@ func (c *checkCtx) syncTwin() *RunResult {
 		c.twin = runScenario(c.T, sc, simrtSerial())
 	}
 	return c.twin
+}
+
+// inChildCall reports whether the event with sequence number seq was logged while a call made by n was in progress.
+func inChildCall(n *Node, seq int) bool {
+	for _, ch := range n.Children {
+		if ch.Enter.Seq < seq && (ch.Exit == nil || ch.Exit.Seq > seq) {
+			return true
+		}
+	}
+	return false
 }
